@@ -141,3 +141,29 @@ def resources(annot=False):
 
 FORMS = ['alpha', 'alphas', 'alphax', 'Álphax', 'beta', 'beta2', 'gamma', 'delta', 'alfa', 'nothing']
 SPEC = {'A1': 'a:1', 'A2': 'a:2', 'X1': 'x:1', 'Y1': 'y:1', 'B1': 'b:1', 'C1': 'c:1'}
+
+
+# what X1(annot=True) attaches to forms of its base: (word, written form, kind, text)
+X_ANNOT = {('a:1|a-e1', 'alpha', 'tag', 'xtagtext-lemma'), ('a:1|a-e1', 'alpha', 'pron', 'xprontext-lemma'),
+           ('a:1|a-e1', 'alphas', 'tag', 'xtagtext-form')}
+
+
+def strip_annotations(words, dedupe=False):
+    """words: the 'words' section of an API / model transcript (modified in place).  Removes - or, with
+    dedupe=True, collapses repeated copies of - exactly the tags and pronunciations that the extension x:1
+    declares on forms of its base, *on the forms it declares them for*; the same texts anywhere else stay."""
+    for wk, w in words.items():
+        for f in w['forms']:
+            for col, kind in ((3, 'tag'), (4, 'pron')):
+                out, seen = [], set()
+                for item in f[col]:
+                    known = (wk, f[0], kind, str(item[0])) in X_ANNOT
+                    if known and not dedupe:
+                        continue
+                    if known and dedupe:
+                        if repr(item) in seen:
+                            continue
+                        seen.add(repr(item))
+                    out.append(item)
+                f[col] = out
+    return words
